@@ -117,44 +117,44 @@ trait TextDecorator: Sized {
     /// Return a suffix for after a link.
     fn decorate_link_end(&mut self) -> (r: String)
         ensures short(r@); //@w
+    spec fn em_start_spec(&self) -> Seq<char>; //@w
 
     /// Return an annotation and rendering prefix for em
-    spec fn em_start_spec(&self) -> Seq<char>; //@w
     fn decorate_em_start(&self) -> (r: (String, Self::Annotation))
         ensures short(r.0@), r.0@ == self.em_start_spec(); //@w
+    spec fn em_end_spec(&self) -> Seq<char>; //@w
 
     /// Return a suffix for after an em.
-    spec fn em_end_spec(&self) -> Seq<char>; //@w
     fn decorate_em_end(&self) -> (r: String)
         ensures short(r@), r@ == self.em_end_spec(); //@w
+    spec fn strong_start_spec(&self) -> Seq<char>; //@w
 
     /// Return an annotation and rendering prefix for strong
-    spec fn strong_start_spec(&self) -> Seq<char>; //@w
     fn decorate_strong_start(&self) -> (r: (String, Self::Annotation))
         ensures short(r.0@), r.0@ == self.strong_start_spec(); //@w
+    spec fn strong_end_spec(&self) -> Seq<char>; //@w
 
     /// Return a suffix for after a strong.
-    spec fn strong_end_spec(&self) -> Seq<char>; //@w
     fn decorate_strong_end(&self) -> (r: String)
         ensures short(r@), r@ == self.strong_end_spec(); //@w
+    spec fn strikeout_start_spec(&self) -> Seq<char>; //@w
 
     /// Return an annotation and rendering prefix for strikeout
-    spec fn strikeout_start_spec(&self) -> Seq<char>; //@w
     fn decorate_strikeout_start(&self) -> (r: (String, Self::Annotation))
         ensures short(r.0@), r.0@ == self.strikeout_start_spec(); //@w
+    spec fn strikeout_end_spec(&self) -> Seq<char>; //@w
 
     /// Return a suffix for after a strikeout.
-    spec fn strikeout_end_spec(&self) -> Seq<char>; //@w
     fn decorate_strikeout_end(&self) -> (r: String)
         ensures short(r@), r@ == self.strikeout_end_spec(); //@w
+    spec fn code_start_spec(&self) -> Seq<char>; //@w
 
     /// Return an annotation and rendering prefix for code
-    spec fn code_start_spec(&self) -> Seq<char>; //@w
     fn decorate_code_start(&self) -> (r: (String, Self::Annotation))
         ensures short(r.0@), r.0@ == self.code_start_spec(); //@w
+    spec fn code_end_spec(&self) -> Seq<char>; //@w
 
     /// Return a suffix for after a code.
-    spec fn code_end_spec(&self) -> Seq<char>; //@w
     fn decorate_code_end(&self) -> (r: String)
         ensures short(r@), r@ == self.code_end_spec(); //@w
 
@@ -208,14 +208,14 @@ trait TextDecorator: Sized {
     fn pop_bgcolour(&mut self) -> bool {
         false
     }
+    spec fn superscript_start_spec(&self) -> Seq<char>; //@w
 
     /// Return an annotation and rendering prefix for superscript text
-    spec fn superscript_start_spec(&self) -> Seq<char>; //@w
     fn decorate_superscript_start(&self) -> (r: (String, Self::Annotation))
         ensures short(r.0@), r.0@ == self.superscript_start_spec(); //@w
+    spec fn superscript_end_spec(&self) -> Seq<char>; //@w
 
     /// Return a suffix for after a superscript.
-    spec fn superscript_end_spec(&self) -> Seq<char>; //@w
     fn decorate_superscript_end(&self) -> (r: String)
         ensures short(r@), r@ == self.superscript_end_spec(); //@w
 
@@ -1074,9 +1074,9 @@ impl<D: TextDecorator> SubRenderer<D> {
         assert(self.pre_depth > 0 ==> main_tag@.drop_last() == stack0 && cont_tag@.drop_last() == stack0 && main_tag@.len() == stack0.len() + 1 && cont_tag@.len() == stack0.len() + 1); //@w @C09 @C12 #pre_text_tagged_with_stack_plus_preformat
         assert(ws_mode == old(self).ws_mode_spec()); //@w @C12 @C13 #text_added_in_current_ws_mode
         wrapping.add_text(filtered_text, ws_mode, main_tag, cont_tag)?;
-        proof { //@w[
-            assert(appended_b(base, wrapping.text@, wrapping.line.v@, wrapping.word.v@, kept(filtered_text@), *main_tag, *cont_tag));
-        } //@w]
+        proof { //@w
+            assert(appended_b(base, wrapping.text@, wrapping.line.v@, wrapping.word.v@, kept(filtered_text@), *main_tag, *cont_tag)); //@w
+        } //@w
         Ok(())
     }
 //@end
@@ -1385,6 +1385,106 @@ impl<D: TextDecorator> SubRenderer<D> {
 }
 
 // ---------------------------------------------------------------------------------------------
+// PushedStyleInfo (src/lib.rs:1885-1935): what do_render_node pushes for a node's computed style and pops after its children.
+// R12: `render: &mut TextRenderer<D>` is its Deref target, the SubRenderer on top of the stack.
+// R10: the fields of ComputedStyle that are read here (WithSpec::val returns the stored value by reference)
+struct WithSpec<T> { v: Option<T> }
+impl<T> WithSpec<T> { #[verifier::external_body] fn val(&self) -> (r: Option<&T>) ensures (self.v matches Some(x) ==> r == Some(&x)), self.v is None ==> r is None { unimplemented!() } }
+struct ComputedStyle { colour: WithSpec<Colour>, bg_colour: WithSpec<Colour>, white_space: WithSpec<WhiteSpace>, internal_pre: bool }
+impl Clone for Colour { #[verifier::external_body] fn clone(&self) -> (r: Self) ensures r == *self { unimplemented!() } }
+impl Copy for Colour {}
+//@item src/lib.rs :: struct PushedStyleInfo
+struct PushedStyleInfo {
+    colour: bool,
+    bgcolour: bool,
+    white_space: bool,
+    preformat: bool,
+}
+//@end
+// R13: #[derive(Default)] of four bools
+fn psi_default() -> (r: PushedStyleInfo) ensures !r.colour && !r.bgcolour && !r.white_space && !r.preformat { PushedStyleInfo { colour: false, bgcolour: false, white_space: false, preformat: false } }
+impl PushedStyleInfo {
+//@item src/lib.rs :: impl PushedStyleInfo :: fn apply
+//@auto C01 C09 C12
+//@sub /render: &mut TextRenderer<D>/ ==> render: &mut SubRenderer<D>
+//@sub /-> Self/ ==> -> (r: Self)
+//@sub /Default::default\(\)/ ==> psi_default()
+//@sub * /#\[cfg\(feature = "css"\)\]\n\s*/ ==> 
+//@sub /#\[allow\(unused_mut\)\]\n\s*/ ==> 
+    fn apply<D: TextDecorator>(render: &mut SubRenderer<D>, style: &ComputedStyle) -> (r: Self)
+        requires old(render).pre_depth < usize::MAX, //@w
+        ensures //@w
+            // white-space: pre / pre-wrap is pushed, nothing else; the preformat depth grows iff the node is an internal <pre>; the flags say so (C12, C09) //@w
+            r.white_space == (style.white_space.v matches Some(ws) && (ws is Pre || ws is PreWrap)), //@w @C12 @C09 #apply_flags_white_space
+            final(render).ws_stack@ == (if r.white_space { old(render).ws_stack@.push(style.white_space.v->Some_0) } else { old(render).ws_stack@ }), //@w @C12 @C09 #apply_pushes_white_space
+            r.preformat == style.internal_pre && final(render).pre_depth == old(render).pre_depth + (if r.preformat { 1int } else { 0int }), //@w @C12 @C09 #apply_pushes_preformat
+            r.colour == style.colour.v.is_some() && r.bgcolour == style.bg_colour.v.is_some(), //@w @C19 @C09 #apply_flags_colours
+            // colours put at most one annotation each on top of the unchanged stack (C19) //@w
+            final(render).ann_stack@.len() >= old(render).ann_stack@.len() && final(render).ann_stack@.len() <= old(render).ann_stack@.len() + 2 && final(render).ann_stack@.take(old(render).ann_stack@.len() as int) =~= old(render).ann_stack@, //@w @C19 @C09 #apply_keeps_annotations_below
+            !r.colour && !r.bgcolour ==> final(render).ann_stack@ == old(render).ann_stack@, //@w @C09 #apply_without_colours_keeps_stack
+            final(render).text_filter_stack@ == old(render).text_filter_stack@ && final(render).same_config(old(render)) && final(render).wrapping == old(render).wrapping && final(render).lines@ == old(render).lines@ && final(render).pending_frags@ == old(render).pending_frags@, //@w @C09 #apply_frame
+    {
+        let mut result: PushedStyleInfo = psi_default();
+        if let Some(col) = style.colour.val() {
+            render.push_colour(*col);
+            result.colour = true;
+        }
+        if let Some(col) = style.bg_colour.val() {
+            render.push_bgcolour(*col);
+            result.bgcolour = true;
+        }
+        if let Some(ws) = style.white_space.val() {
+            if let WhiteSpace::Pre | WhiteSpace::PreWrap = ws {
+                render.push_ws(*ws);
+                result.white_space = true;
+            }
+        }
+        if style.internal_pre {
+            render.push_preformat();
+            result.preformat = true;
+        }
+        result
+    }
+//@end
+//@item src/lib.rs :: impl PushedStyleInfo :: fn unwind
+//@auto C01 C09 C12
+//@sub /renderer: &mut TextRenderer<D>/ ==> renderer: &mut SubRenderer<D>
+    fn unwind<D: TextDecorator>(self, renderer: &mut SubRenderer<D>)
+        requires self.preformat ==> old(renderer).pre_depth > 0, //@w #paired_with_apply
+        ensures //@w
+            // exactly what apply pushed is popped: white space and preformat depth return to where they were (C09, C12: nothing leaks past the element) //@w
+            final(renderer).ws_stack@ == (if self.white_space && old(renderer).ws_stack@.len() > 0 { old(renderer).ws_stack@.drop_last() } else { old(renderer).ws_stack@ }), //@w @C12 @C09 #unwind_pops_white_space
+            final(renderer).pre_depth == old(renderer).pre_depth - (if self.preformat { 1int } else { 0int }), //@w @C12 @C09 #unwind_pops_preformat
+            final(renderer).ann_stack@.len() <= old(renderer).ann_stack@.len() && final(renderer).ann_stack@.len() + 2 >= old(renderer).ann_stack@.len() && final(renderer).ann_stack@ =~= old(renderer).ann_stack@.take(final(renderer).ann_stack@.len() as int), //@w @C19 @C09 #unwind_pops_at_most_the_colours
+            !self.colour && !self.bgcolour ==> final(renderer).ann_stack@ == old(renderer).ann_stack@, //@w @C09 #unwind_without_colours_keeps_stack
+            final(renderer).text_filter_stack@ == old(renderer).text_filter_stack@ && final(renderer).same_config(old(renderer)) && final(renderer).wrapping == old(renderer).wrapping && final(renderer).lines@ == old(renderer).lines@ && final(renderer).pending_frags@ == old(renderer).pending_frags@, //@w @C09 #unwind_frame
+    {
+        if self.bgcolour {
+            renderer.pop_bgcolour();
+        }
+        if self.colour {
+            renderer.pop_colour();
+        }
+        if self.white_space {
+            renderer.pop_ws();
+        }
+        if self.preformat {
+            renderer.pop_preformat();
+        }
+    }
+//@end
+}
+// composition (our code): after the children of a node, white-space mode and preformat depth are back where they were (C09, C12)
+fn apply_then_unwind<D: TextDecorator>(render: &mut SubRenderer<D>, style: &ComputedStyle)
+    requires old(render).pre_depth < usize::MAX,
+    ensures final(render).ws_stack@ == old(render).ws_stack@, final(render).pre_depth == old(render).pre_depth,
+        style.colour.v is None && style.bg_colour.v is None ==> final(render).ann_stack@ == old(render).ann_stack@,
+{
+    let p = PushedStyleInfo::apply(render, style);
+    p.unwind(render);
+}
+
+// ---------------------------------------------------------------------------------------------
 // TextRenderer: the stack of sub-renderers plus the one global list of link targets (C08).
 // R12: `Deref`/`DerefMut` to the top of the stack is written out (`self.options` -> top.options, `self.add_inline_text` -> top.add_inline_text).
 // R6: `format!("[{}]", n)` -> fmt_footnote_ref(n).
@@ -1623,13 +1723,13 @@ fn enum_map_collect<A, F: Fn(usize, String) -> TaggedLine<A>>(v: Vec<String>, f:
 //@sub /format!\("\[\{\}\]: \{\}", idx \+ 1, s\)/ ==> fmt_footnote(idx + 1, s)
 //@sub /&Default::default\(\)/ ==> &dflt
 //@sub /(?s)\}\)\s*\.collect\(\)/ ==> })
-fn default_finalise_slice<A: Debug + Eq + PartialEq + Clone + Default>(urls: Vec<String>, dflt: A) -> (r: Vec<TaggedLine<A>>) //@w[
-    requires tag_ok::<A>(), urls@.len() < usize::MAX,
-    ensures
-        // one entry per link, in order; entry k (1-based) is "[k]: " followed by that link's target (C08)
+fn default_finalise_slice<A: Debug + Eq + PartialEq + Clone + Default>(urls: Vec<String>, dflt: A) -> (r: Vec<TaggedLine<A>>) //@w
+    requires tag_ok::<A>(), urls@.len() < usize::MAX, //@w
+    ensures //@w
+        // one entry per link, in order; entry k (1-based) is "[k]: " followed by that link's target (C08) //@w
         r@.len() == urls@.len(), //@w @C08 #one_footnote_per_link_default
         forall|k: int| 0 <= k < urls@.len() ==> flat((#[trigger] r@[k]).v@) =~= flat_str(note_text((k + 1) as usize, urls@[k]@), dflt), //@w @C08 #footnote_k_is_numbered_k
-{ //@w]
+{ //@w
         enum_map_collect(urls, |idx: usize, s: String| -> (l: TaggedLine<A>) requires idx < usize::MAX, tag_ok::<A>() ensures flat(l.v@) =~= flat_str(note_text((idx + 1) as usize, s@), dflt) {
                 TaggedLine::from_string(fmt_footnote(idx + 1, s), &dflt)
             })
